@@ -5,6 +5,7 @@ import DaeVerif.C13.TQStep
 import DaeVerif.C13.EPProofs
 import DaeVerif.C13.EPC
 import DaeVerif.C13.RouteProofs
+import DaeVerif.C13.BatchProofs
 /-!
 # C13 — helper lemmas (index)
 
